@@ -700,4 +700,60 @@ func runTowerChains() {
 	fmt.Fprintf(os.Stderr, "gvgoslp: chains: %d tower chains (incl. in-place variants)\n", n)
 }
 
-func runCurveChains() {}
+// ---- curve level
+
+var curveChainDirs = []string{"bn254", "bls12-377", "bls12-381", "bls24-315", "bls24-317", "bw6-633", "bw6-761", "grumpkin", "secp256k1", "stark-curve"}
+
+func runCurveChains() {
+	var b strings.Builder
+	fmt.Fprintf(&b, chainsHeader, "mulBySeed of G1Jac / G2Jac (ecc/<curve>/g1.go, g2.go) as ADDITIVE chains: mul = AddAssign, sq = Double / DoubleAssign,\n   inv = Neg (SubAssign = Neg into a fresh register, then AddAssign). `<F>` is p.mulBySeed(q) with distinct variables,\n   `<F>_inplace` is p.mulBySeed(p). A mulBySeed that is `p.mulWindowed(q, &K); return p` is not a chain: `windowed` lists (curve, group, K).")
+	b.WriteString("namespace Curve\n\n")
+	var table, windowed []string
+	n := 0
+	for _, cv := range curveChainDirs {
+		pkg := strings.ReplaceAll(cv, "-", "_")
+		opened := false
+		for _, g := range []string{"g1", "g2"} {
+			p := filepath.Join(repo, "ecc", cv, g+".go")
+			if _, err := os.Stat(p); err != nil {
+				continue
+			}
+			fset, f := parseChainFile(p)
+			for _, dc := range f.Decls {
+				fd, ok := dc.(*ast.FuncDecl)
+				if !ok || fd.Recv == nil || fd.Body == nil || fd.Name.Name != "mulBySeed" {
+					continue
+				}
+				where := "ecc/" + cv + "/" + g + ".go"
+				ch := translateChain("curve", where, fset, fd, nil, false)
+				if ch.windowed != "" {
+					windowed = append(windowed, fmt.Sprintf("(\"%s\", \"%s\", \"%s\")", pkg, g, ch.windowed))
+					continue
+				}
+				if !opened {
+					fmt.Fprintf(&b, "namespace %s\n", pkg)
+					opened = true
+				}
+				for _, al := range []bool{false, true} {
+					if al {
+						ch = translateChain("curve", where, fset, fd, nil, true)
+					}
+					name := g + "_mulBySeed"
+					if al {
+						name += "_inplace"
+					}
+					fmt.Fprintf(&b, "/-- %s `mulBySeed`%s; registers: %s -/\ndef %s : Chain :=\n  %s\n", where, map[bool]string{false: "", true: " called in place"}[al], strings.Join(ch.regNames, " "), name, ch.lean("    "))
+					table = append(table, fmt.Sprintf("(\"%s\", \"%s\", %s.%s)", pkg, name, pkg, name))
+					n++
+				}
+			}
+		}
+		if opened {
+			fmt.Fprintf(&b, "end %s\n\n", pkg)
+		}
+	}
+	fmt.Fprintf(&b, "/-- every translated curve chain: (curve, function, chain) -/\ndef curveChains : List (String × String × Chain) := [\n  %s]\n\n", strings.Join(table, ",\n  "))
+	fmt.Fprintf(&b, "/-- mulBySeed implemented as mulWindowed(q, &K): (curve, group, K) -/\ndef windowed : List (String × String × String) := [%s]\n\nend Curve\nend GV.Gen.Chains\n", strings.Join(windowed, ", "))
+	writeFile("Chains/Curve.lean", b.String())
+	fmt.Fprintf(os.Stderr, "gvgoslp: chains: %d curve chains (incl. in-place variants), %d mulBySeed through mulWindowed\n", n, len(windowed))
+}
